@@ -92,4 +92,20 @@ several nodes, before or after the operation -/
 def landsAlone (H : Hasher) (s s' : CH) (k : Node) : Bool :=
   decide ((landing H s k).length ≤ 1) || decide ((landing H s' k).length ≤ 1)
 
+/-- the `dispatch` monitor on one intercepted command `(node, keys of the call among its arguments)`: `expected k` is the
+node the instance's ring gives for key `k` ("-" for none) -/
+def cmdOk (expected : String → String) (multi : Bool) (keys : List String) (rec : String × List String) : Bool :=
+  if multi then rec.2.all fun k => !keys.contains k || expected k == rec.1
+  else match keys with
+    | [k] => expected k == rec.1
+    | _ => false
+
+def addrText (o : Outcome) : String :=
+  match o.addr with
+  | some a => a
+  | none => "-"
+
+/-- the `lock-leak` monitor: nothing is held after the call ended, however it ended -/
+def lockFree (st : Int × Int) : Bool := st.1 == 0 && st.2 == 0
+
 end GoZero.C15
